@@ -263,3 +263,20 @@ def run_as(ctx, fn, old, new):
         fn(ctx)
     finally:
         rep.ob, rep.floor = orig_ob, orig_floor
+
+
+def mutations_while_iterating(fnode):
+    """[(for stmt, mutating call / delete stmt)] where the body of `for x in L:` changes the length of the very list L it iterates
+    (L a plain name, not a copy made in the loop header): the element following a removed one is skipped, an inserted one is visited twice"""
+    out = []
+    for loop in ast.walk(fnode):
+        if not isinstance(loop, ast.For) or not isinstance(loop.iter, ast.Name):
+            continue
+        L = loop.iter.id
+        for st in loop.body:
+            for x in ast.walk(st):
+                if isinstance(x, ast.Call) and isinstance(x.func, ast.Attribute) and is_name(x.func.value, L) and x.func.attr in ('remove', 'pop', 'insert', 'append', 'extend', 'clear'):
+                    out.append((loop, x))
+                if isinstance(x, ast.Delete) and any(isinstance(t, ast.Subscript) and is_name(t.value, L) for t in x.targets):
+                    out.append((loop, x))
+    return out
